@@ -460,6 +460,17 @@ pub fn run() {
       }
     }
   }
+  // more days than a 64-bit machine integer counts (the literal readers accept them, C14; the reference reader stops at
+  // 18 digits, so the lengths are given here)
+  for (t, days, extra_ns) in [("P18446744073709551615D", 18446744073709551615i128, 0i128), ("P18446744073709551617DT1H", 18446744073709551617, 3_600_000_000_000), ("P99999999999999999999D", 99999999999999999999, 0)] {
+    for sign in ["", "-"] {
+      let text = format!("{}{}", sign, t);
+      if let Ok(v) = FeelDaysAndTimeDuration::try_from(text.as_str()) {
+        let n = days * 86_400_000_000_000 + extra_ns;
+        dtv.push((if sign.is_empty() { n } else { -n }, Value::DaysAndTimeDuration(v)));
+      }
+    }
+  }
   let ym_texts = ["P0M", "P1M", "P11M", "P1Y", "P1Y1M", "P14M", "P100Y", "P999999999Y11M"];
   let mut ymd: Vec<(i128, Value)> = vec![];
   for t in ym_texts {
@@ -491,8 +502,9 @@ pub fn run() {
         format!("[{}, {}]", abs / 12, abs % 12)
       };
       // components of a negative duration: the specification gives them the sign of the duration
+      let class = if kind == "dt-duration" && abs / 1_000_000_000 / 86400 > u64::MAX as i128 { ":more-days-than-64-bits-count" } else { "" };
       if *na >= 0 {
-        expect(&run, &cnt, &format!("{}:components", kind), &format!("components of @\"{}\"", printer(*na)), &e_comp(&s1), &comp, json!({"engine":"c15","text":printer(*na)}));
+        expect(&run, &cnt, &format!("{}:components{}", kind, class), &format!("components of @\"{}\"", printer(*na)), &e_comp(&s1), &comp, json!({"engine":"c15","text":printer(*na)}));
       } else {
         // ... whichever convention is followed, it is the same for every component: all are the components of the opposite
         // duration, or all are their negations - then they add up to the total length or to its magnitude
@@ -506,7 +518,7 @@ pub fn run() {
         cnt.evals.fetch_add(1, Ordering::Relaxed);
         if got != comp && got != negated {
           run.violation(
-            &format!("{}:components-of-a-negative-duration", kind),
+            &format!("{}:components-of-a-negative-duration{}", kind, class),
             &format!("components of @\"{}\" evaluate to {}: neither the components of the opposite duration {} nor their negations {}", printer(*na), got, comp, negated),
             json!({"engine":"c15","text":format!("@\"{}\".{}", printer(*na), if kind == "dt-duration" { "days" } else { "years" })}),
           );
